@@ -22,8 +22,12 @@ const (
 // according to kind (the damage is a solver variable constrained only to differ
 // from the intact value).
 func verifHeader(buf []byte, i int, txid uint64, root PageID, kind int) {
-	pg := castMetaPage(buf[verifPageSize*i:])
-	pg.Init(0, verifPageSize, 64*verifPageSize)
+	verifHeaderPS(buf, i, txid, root, kind, verifPageSize)
+}
+
+func verifHeaderPS(buf []byte, i int, txid uint64, root PageID, kind int, pageSize int) {
+	pg := castMetaPage(buf[pageSize*i:])
+	pg.Init(0, uint32(pageSize), uint64(64*pageSize))
 	pg.txid.Set(txid)
 	pg.root.Set(root)
 	pg.dataEndMarker.Set(2)
@@ -43,7 +47,7 @@ func verifHeader(buf []byte, i int, txid uint64, root PageID, kind int) {
 		pg.version.Set(c)
 	case corruptZero:
 		for k := 0; k < metaPageHeaderSize; k++ {
-			buf[verifPageSize*i+k] = 0
+			buf[pageSize*i+k] = 0
 		}
 	}
 }
@@ -94,14 +98,20 @@ func VerifMetaSelect() {
 // VerifMetaSlot1Location: a damaged page-size field in header 0 must not hide
 // an intact header 1.
 func VerifMetaSlot1Location() {
-	buf := make([]byte, 3*verifPageSize)
-	verifHeader(buf, 0, 5, 7, corruptNone)
-	verifHeader(buf, 1, 6, 9, corruptNone)
+	// every page size a file can have (powers of two from the minimum up)
+	sizes := []int{1024, 4096, 65536, 1 << 17}
+	pageSize := sizes[verifChoose(len(sizes))]
+	buf := make([]byte, 2*pageSize+verifPageSize)
+	verifHeaderPS(buf, 0, 5, 7, corruptNone, pageSize)
+	verifHeaderPS(buf, 1, 6, 9, corruptNone, pageSize)
 	pg := castMetaPage(buf)
 	ps := verifU32("pagesize0")
-	verifAssume(ps != verifPageSize)
-	pg.pageSize.Set(ps) // checksum of header 0 no longer matches: header 0 is damaged
-	disk := memFileFrom(buf, 8*verifPageSize)
+	verifAssume(ps != uint32(pageSize))
+	pg.pageSize.Set(ps)
+	// the damage is detectable (a 4-byte change that happens to keep the 32-bit checksum is
+	// indistinguishable from an intact header for any checksum; the solver finds such values)
+	verifAssume(pg.Validate() != nil)
+	disk := memFileFrom(buf, len(buf))
 	verifKnown("D11", true)
 	meta, active, err := readValidMeta(disk)
 	verifAssert(err == nil && active == 1, "header 0 damaged in its page-size field: intact header 1 is selected")
